@@ -35,6 +35,8 @@ type Config struct {
 	Tier      int  // 0 quick, 1 thorough (returned by vxTier())
 	Preempt   int  // pre-emption budget (mode X); 0 = run-to-block
 	PermuteMaps bool
+	CrossCheckEvery int // re-decide every n-th assertion query (and the first 8) with z3 5.x and cvc5; 0 = off
+	assertQueries, crossChecks, crossUnknown, crossDisagree int64
 	Trace bool // record event traces and run the SMT race analysis at the end of every path
 	MaxTraceAccesses int
 	SymbolicChoices bool // harness/scheduler choices are symbolic variables enumerated by the solver
@@ -59,6 +61,11 @@ func (c *Config) noteExt(name string) {
 	c.mu.Lock()
 	c.exts[name]++
 	c.mu.Unlock()
+}
+
+// CrossStats returns (re-decided queries, unknown answers, disagreements).
+func (c *Config) CrossStats() (int64, int64, int64) {
+	return atomic.LoadInt64(&c.crossChecks), atomic.LoadInt64(&c.crossUnknown), atomic.LoadInt64(&c.crossDisagree)
 }
 
 // Stubs lists the intrinsics / redirects that were executed.
